@@ -76,9 +76,16 @@ def run(seed_id, props):
             rc, out = sh(f"./check {p} --tier quick", cwd=VERIF, env=env, timeout=3600)
             lines = [l for l in out.splitlines() if l.startswith(("VIOLATION", "KNOWN-FINDING", "UNDECIDED", "CHECKER-BROKEN")) or " obligations=" in l]
             res[p] = rc
-            print(f"{seed_id} vs {p}: exit={rc}")
-            for l in lines[:6]:
-                print("    ", l[:260])
+            viol = [l for l in lines if l.startswith("VIOLATION")]
+            ded = [l.split("obligation=", 1)[1] for l in viol if "obligation=bounded:" not in l]
+            bnd = [l for l in viol if "obligation=bounded:" in l]
+            print(f"{seed_id} vs {p}: exit={rc} deductive={len(ded)} bounded={len(bnd)}")
+            for l in ded[:4]:
+                print("     D:", l[:230])
+            for l in bnd[:2]:
+                print("     B:", l.split("obligation=", 1)[1][:200])
+            for l in [x for x in lines if not x.startswith("VIOLATION")][:4]:
+                print("    ", l[:230])
     finally:
         shutil.rmtree(d, ignore_errors=True)
     return res
